@@ -1,17 +1,18 @@
 SPECIFICATION Spec
 CONSTANTS
-    Mode = "edges"
+    Mode = "mc"
     Depth = 0
     Calls <- CapCalls
     MaxCalls = 1
-    Inst = {1}
+    Inst = {1, 2}
     Limit = 3
-    CapN = 2
-    Cache = 0
+    CapN = 0
+    Cache = 4096
     Compress = FALSE
-    ExtK = 0
+    ExtK = 2
     CapProbe = TRUE
     Debug = FALSE
     HookMode = "ok"
 VIEW View
+PROPERTIES HttpEqualsPipe OneTurnPerContinuation CapsHold ExtCapHolds CapReplaces HookBalanced
 CHECK_DEADLOCK FALSE
